@@ -222,3 +222,19 @@ Lemma placeholder_default_matters :
   param_repr k2c_param (sr (of_map [(lit "D", lit "/mnt")]) (VStr (lit "{D}/x")), false) <>
   param_repr k2c_param (sr (of_map [(lit "D", lit "/srv")]) (VStr (lit "{D}/x")), false).
 Proof. vm_compute. discriminate. Qed.
+
+(* K2e: global_vars given or not *)
+(* global_vars given or not: a string whose repr() is the text between single quotes gets the same text both ways *)
+Lemma no_global_vars_same_text p g s :
+  py_repr_str s = squote :: s ++ [squote] ->
+  value_repr p (apply_str g s) = value_repr p (VStr s).
+Proof.
+  intros Hs. destruct (apply_str_cases g s) as [[_ ->]|[_ ->]]; [reflexivity|].
+  cbn [value_repr]. rewrite Hs. destruct (pd_dtype p); reflexivity.
+Qed.
+
+Definition k2e_param : pdecl :=
+  {| pd_name := lit "s"; pd_cfg := lit "s"; pd_default := None; pd_ignore := false; pd_dropdef := false; pd_dtype := DAny |}.
+Lemma quoted_placeholder_text_matters :
+  value_repr k2e_param (apply_str (of_map []) (lit "it's {Y}")) <> value_repr k2e_param (VStr (lit "it's {Y}")).
+Proof. vm_compute. discriminate. Qed.
